@@ -182,7 +182,7 @@ def _unlock_aborts(ctx):
 
 _H = "            except Exception:\n                mutter(\"aborting commit write group because of exception:\")\n                trace.log_exception_quietly()\n                self.builder.abort()\n                raise\n"
 MUTANTS = [
-    Mutant("pack-names written before autopack", PR, "        if any_new_content:\n            result = self.autopack()\n            if not result:\n", "        if any_new_content:\n            self._save_pack_names()\n            result = self.autopack()\n            if not result:\n", expect="R7-publish-last"),
+    Mutant("pack-names written before autopack", PR, "            try:\n                result = self.autopack()\n                if not result:\n", "            try:\n                self._save_pack_names()\n                result = self.autopack()\n                if not result:\n", expect="R7-publish-last"),
     Mutant("sha1 provider remembers hashes by size and mtime", "breezy/bzr/workingtree_4.py", "        filters = self.tree._content_filter_stack(\n            self.tree.relpath(osutils.safe_unicode(abspath))\n        )\n        return _mod_filters.internal_size_sha_file_byname(abspath, filters)[1]\n", "        st = os.lstat(abspath)\n        memo = self.__dict__.setdefault(\"_memo\", {})\n        if memo.get(abspath, (None,))[0] == (st.st_size, st.st_mtime):\n            return memo[abspath][1]\n        filters = self.tree._content_filter_stack(\n            self.tree.relpath(osutils.safe_unicode(abspath))\n        )\n        memo[abspath] = ((st.st_size, st.st_mtime), _mod_filters.internal_size_sha_file_byname(abspath, filters)[1])\n        return memo[abspath][1]\n", expect="R8-hash-always-computed"),
     Mutant("excludes outside the selection dropped", CM, "                self.specific_files = sorted(minimum_path_selection(specific_files))\n            else:", "                self.specific_files = sorted(minimum_path_selection(specific_files))\n                self.exclude = [p for p in self.exclude if is_inside_any(self.specific_files, p)]\n            else:", expect="R6-selection-unnarrowed"),
     Mutant("tip moved before builder.commit", CM, "                # Add revision data to the local branch\n                self.rev_id = self.builder.commit(self.message)\n", "                # Add revision data to the local branch\n                self._update_branches(old_revno, old_revid, new_revno)\n                self.rev_id = self.builder.commit(self.message)\n", expect=["R1-tip-after-builder-commit", "R1-single-update-site", "R1-tip-outside-pipeline-try"]),
